@@ -142,7 +142,7 @@ pub fn run(args: &[String]) -> i32 {
             continue;
         }
         done += 1;
-        let short = if text.len() > 300 { &text[..300] } else { &text[..] };
+        let short = crate::util::trunc(&text, 300);
         let pcf = schema.canonical_form();
         let header = RabinFingerprintHeader::from_schema(&schema).build_header();
         out.pair(&format!("sohdr {}", wire::hex(pcf.as_bytes())), &wire::hex(&header));
@@ -187,7 +187,7 @@ pub fn run(args: &[String]) -> i32 {
             let mut sink = Vec::new();
             let r = catch(|| w.write_value_ref(v, &mut sink));
             history.push("good");
-            let case = format!("schema={short} message #{i} after history {history:?} value={}", { let s = wire::value_str(v, true); if s.len() > 200 { s[..200].to_string() } else { s } });
+            let case = format!("schema={short} message #{i} after history {history:?} value={}", crate::util::trunc(&wire::value_str(v, true), 200).to_string());
             match r {
                 Ok(Ok(count)) => {
                     out.pair(&format!("somsg {} {names_s} {schema_s} {}", wire::hex(pcf.as_bytes()), wire::value_str(v, false)), &format!("ok {}", wire::hex(&sink)));
